@@ -283,6 +283,10 @@ pub fn run(p: &Params) -> Outcome {
             ctx.inconclusive("too few text-bearing base messages".into());
         }
         for i in 0..per {
+            if ctx.saturated() {
+                ctx.count("stopped_early_after_20000_violations");
+                break;
+            }
             let s = match i % 4 {
                 0 => strings::hostile_string(&mut rng),
                 1 => {
